@@ -20,10 +20,17 @@ RULE = ("histories write(A); write(B, overwrite=o1); write(C, overwrite=o2) (len
         "differ x store kind {MemoryStore, LocalStore, Path, str} x pre-state {absent, sibling group + foreign attrs} x zarr format; "
         "entry points write_arrays (tied to the Coq model step by step) and geff.write for networkx and rustworkx over every store kind x pre-state x format (oracle only: refusal, complete replacement, foreign members kept); a block of "
         "format-changing overwrites (oracle only); after each call: exception class, key->bytes snapshot, abstract dump, read-back; "
-        "non-trivial = at least one call hits an existing geff; distinct by structural input")
+        "non-trivial = at least one call hits an existing geff; distinct by structural input; "
+        "entry-point histories (harness/c06_entries.py, tied to Entry.v): on one directory (or MemoryStore) the entry points take turns -- "
+        "from_ctc_to_geff and from_trackmate_xml_to_geff through API and CLI (label volume outside / inside the geff directory), write_dicts and "
+        "the Nx/Rx/Sg backend writers called directly, geff.write for networkx and spatial-graph, write_arrays; fixed blocks per zarr format "
+        "(fresh/refused/overwritten, geff beside foreign members then every entry point by path, store kinds) + random mixed histories")
 EXHAUSTIVE_BLOCKS = ["store kind x zarr format x (o1, o2) in {F,T}^2 for one fixed triple of graphs"]
 ASSUMPTIONS = ["equality after an overwrite is on the decoded hierarchy (abstract dump) and the read-back graph, not on bytes",
-               "the Coq model has one zarr format per history; format-changing overwrites are checked by the oracle only"]
+               "the Coq model has one zarr format per history; format-changing overwrites are checked by the oracle only",
+               "entry-point histories: trees are compared with the opaque metadata tokens (axis type/unit, version, related objects, extra) blanked; "
+               "the spatial-graph writer is modelled behind write_props_arrays' in-place unsquish of the position column; the label volume inside "
+               "the geff directory is generated at depth 1 (out.geff/seg) only; one compiled spatial_graph signature"]
 
 
 def three_graphs(rng):
